@@ -85,6 +85,10 @@ class Gen:
     # -- expressions
     def expr(self, d=0):
         r = self.r.random()
+        if self.feat.get('sqlfor') and self.r.random() < 0.08:
+            # block keywords of the splitter in ordinary expression syntax: SUBSTRING(x FROM 1 FOR 3), OVERLAY(… FOR …), IF(…) is lexed as a Name
+            self.count('substring_for')
+            return [nm(self.r.choice(['substring', 'overlay'])), pu('(', tight=True)] + self.ident() + [kw('FROM'), Lex('num', '1'), kw('FOR'), Lex('num', '3'), pu(')')]
         if d >= self.maxdepth or r < 0.32:
             return self.ident()
         if r < 0.47:
@@ -184,6 +188,9 @@ class Gen:
             s += [kw('ORDER BY')] + self.commalist(lambda: self.ident() + ([kw(self.r.choice(['DESC', 'ASC']))] if self.r.random() < 0.5 else []), 1, 2)
         if self.r.random() < 0.1:
             s += [kw('LIMIT'), Lex('num', '10')]
+        if self.feat.get('sqlfor') and self.r.random() < 0.12:
+            self.count('for_update')
+            s += [kw('FOR'), kw(self.r.choice(['UPDATE', 'SHARE']))]
         if d == 0 and self.feat['setops'] and self.r.random() < 0.1:
             self.count('setop')
             s += [kw(self.r.choice(['UNION', 'UNION ALL', 'EXCEPT']))] + self.select(d + 1)
@@ -209,7 +216,7 @@ class Gen:
             self.count('create_table_as')
             return [kw(self.r.choice(['CREATE', 'CREATE OR REPLACE'])), kw(self.r.choice(['TABLE', 'VIEW']))] + self.ident() + [kw('AS')] + \
                 ([kw('SELECT'), nm(self.r.choice(FUNCS)), pu('(', tight=True)] + self.ident() + [pu(')'), kw('FROM')] + self.ident()
-                 if self.r.random() < 0.6 else self.select(1))
+                 if self.r.random() < 0.5 else ([pu('(')] + self.select(1) + [pu(')')] if self.feat.get('sqlfor') and self.r.random() < 0.5 else self.select(1)))
         if r < 0.92 and self.feat['ddl']:
             self.count('create_table')
             cols = self.commalist(lambda: [nm(self.r.choice(IDENT)), nm(self.r.choice(TYPES))] +
@@ -302,10 +309,26 @@ class Gen:
                 out += self.plain_stmt()
         return out
 
+    def tx_stmt(self):
+        """transaction-control statements: plain statements whose keywords (BEGIN, END) also occur as block keywords"""
+        self.count('tx_stmt')
+        return self.r.choice([[kw('BEGIN')], [kw('BEGIN'), kw('TRANSACTION')], [kw('START'), kw('TRANSACTION')], [kw('COMMIT')], [kw('ROLLBACK')],
+                              [kw('BEGIN'), kw('WORK')], [kw('COMMIT'), kw('WORK')], [kw('SAVEPOINT'), nm('sp1')]])
+
     def create_block(self, allow=()):
         self.count('create_block')
-        hdr = [kw(self.r.choice(['CREATE', 'CREATE OR REPLACE'])), kw(self.r.choice(['PROCEDURE', 'FUNCTION', 'TRIGGER'])), nm('p_' + self.r.choice(IDENT)),
-               pu('(', tight=True)]
+        r = self.r.random()
+        if r < 0.25:
+            # trigger header: block keywords (FOR) before the body's BEGIN
+            self.count('create_trigger_header')
+            hdr = [kw(self.r.choice(['CREATE', 'CREATE OR REPLACE'])), kw('TRIGGER'), nm('trg_' + self.r.choice(IDENT)), kw(self.r.choice(['BEFORE', 'AFTER'])),
+                   kw(self.r.choice(['INSERT', 'UPDATE', 'DELETE'])), kw('ON')] + self.ident() + [kw('FOR'), kw('EACH'), kw('ROW')]
+            return hdr + [kw('BEGIN')] + self.block_items(0, allow) + [kw('END')]
+        hdr = [kw(self.r.choice(['CREATE', 'CREATE OR REPLACE'])), kw(self.r.choice(['PROCEDURE', 'FUNCTION', 'TRIGGER']))]
+        if r < 0.4:
+            self.count('create_if_not_exists')
+            hdr += [kw('IF'), kw('NOT'), kw('EXISTS')]
+        hdr += [nm('p_' + self.r.choice(IDENT)), pu('(', tight=True)]
         if self.r.random() < 0.5:
             hdr += [nm('arg1'), nm('int')]
         hdr += [pu(')')]
